@@ -10,7 +10,7 @@ exhibits the order dependence beyond it.
 Generate (tla/BoundsCases.tla): TLC enumerates lattice faces inside the quantifier with their
 expected bounds.  Replay: faces are batched into grids, Grid.bounds is recorded.  Judge
 (tla/JudgeBounds.tla): TLC decides every clause and the abstract signature of each failing case.
-Python evaluates descriptors to floats, applies the 1e-9 tolerance and samples the boundary.
+Python evaluates descriptors to floats, applies the tolerance (1e-8 latitudes = the library's ERROR_TOLERANCE, 1e-9 longitudes) and samples the boundary.
 """
 
 from __future__ import annotations
@@ -27,7 +27,8 @@ from harness.core import Machinery
 from harness.pool import pmap
 
 PROP = "C13"
-TOL = 1e-9
+TOL = 1e-9  # longitudes
+TOL_LAT = 1.0e-8 * (1 + 1e-6)  # latitudes: the library's documented ERROR_TOLERANCE (an interior extreme within 1e-8 of an end point is identified with it)
 TWO_PI = 2.0 * math.pi
 
 
@@ -141,6 +142,8 @@ def circ_diff(a, b):
 def lon_inside(lon, lo, hi, tol):
     if hi - lo >= TWO_PI - tol:
         return True
+    if circ_diff(lon, lo) <= tol or circ_diff(lon, hi) <= tol:  # at an end, also across the 0 / 2 pi seam
+        return True
     if lo <= hi:
         return lo - tol <= lon <= hi + tol
     return lon >= lo - tol or lon <= hi + tol
@@ -170,9 +173,9 @@ def outside(f, m, lat_lo, lat_hi, lon_lo, lon_hi, per_kind=2):
     """Sample points outside the box, at most per_kind of each kind (lat_lo, lat_hi, lon)."""
     bad = {"lat_lo": [], "lat_hi": [], "lon": []}
     for e, k, lat, lon in boundary_samples(f, m):
-        if lat < lat_lo - TOL:
+        if lat < lat_lo - TOL_LAT:
             bad["lat_lo"].append(["lat_lo", e, k])
-        if lat > lat_hi + TOL:
+        if lat > lat_hi + TOL_LAT:
             bad["lat_hi"].append(["lat_hi", e, k])
         if lon is not None and not lon_inside(lon, lon_lo, lon_hi, TOL):
             bad["lon"].append(["lon", e, k])
@@ -216,8 +219,8 @@ SNAP_CAP = math.acos(1.0 - 1e-8)  # the library treats |z| > 1 - 1e-8 as the pol
 
 
 def lat_match(exact, reported):
-    """Within the property's 1e-9, or both inside the cap that the library's documented pole snap identifies with the pole."""
-    if abs(exact - reported) <= TOL:
+    """Within the library's documented 1e-8, or both inside the cap that its documented pole snap identifies with the pole."""
+    if abs(exact - reported) <= TOL_LAT:
         return True
     cap = math.pi / 2 - SNAP_CAP
     return (exact >= cap and reported >= cap) or (exact <= -cap and reported <= -cap)
@@ -565,7 +568,7 @@ GRID_FILES = [
 def float_oracle(v):
     """Bounds of a convex face from float unit vectors (counter-clockwise).  NO exact oracle here: plain
     floating point, independent of uxarray's helpers.  Returns None when the face is not judged (not convex,
-    a pole within 1e-9 of the boundary, a corner inside the pole snap cap, longitude extent >= 180 degrees)."""
+    an edge through a pole, a corner inside the pole snap cap, longitude extent >= 180 degrees)."""
     n = len(v)
 
     def det(a, b, c):
@@ -578,9 +581,11 @@ def float_oracle(v):
     if any(math.hypot(p[0], p[1]) < 2 * SNAP_CAP for p in v):
         return None
     nz = [v[i][0] * v[(i + 1) % n][1] - v[i][1] * v[(i + 1) % n][0] for i in range(n)]
-    if min(abs(x) for x in nz) < 1e-9:
-        return None
-    north, south = all(x > 0 for x in nz), all(x < 0 for x in nz)
+    for i in range(n):
+        a, b = v[i], v[(i + 1) % n]
+        if abs(nz[i]) < 1e-9 and a[0] * b[0] + a[1] * b[1] < 0:
+            return None  # an edge in a meridian plane whose ends lie on opposite meridians: it passes through a pole
+    north, south = all(x > 1e-9 for x in nz), all(x < -1e-9 for x in nz)
     lats = [math.atan2(p[2], math.hypot(p[0], p[1])) for p in v]
     hi, lo = max(lats), min(lats)
     for i in range(n):
@@ -647,9 +652,10 @@ def gridfile_check(spec):
             bad.append("FileLon")
         if outside(v, m, lat_lo, lat_hi, lon_lo, lon_hi):
             bad.append("FileEnclosure")
+        seam = any(float(np.mod(lon[i], 2 * np.pi)) == 2 * np.pi for i in ids)
         for clause in bad:
             if len(out["failures"]) < 50:
-                out["failures"].append({"face": k, "clause": clause, "reported": b[k].tolist(), "float_oracle": list(e), "corners_lonlat_deg": [[math.degrees(lon[i]), math.degrees(lat[i])] for i in ids]})
+                out["failures"].append({"face": k, "clause": clause, "corner_lon_rounds_to_2pi": seam, "reported": b[k].tolist(), "float_oracle": list(e), "corners_lonlat_deg": [[math.degrees(lon[i]), math.degrees(lat[i])] for i in ids]})
     return out
 
 
@@ -689,15 +695,38 @@ GROUP = {
 }
 
 
-def violation_sig(clause, sig, rec):
-    """Projection of the signature decided by TLC (JudgeBounds!Sig) onto the failed clause: which bound the
-    clause is about, and that bound's 'attained only at corners that start a bulging edge' flag."""
+def violation_sig(clause, sig, rec, item):
+    """Projection of the signature decided by TLC (JudgeBounds!Sig) onto the failed clause: which bound the clause is
+    about and that bound's TLC-decided flags; plus two numeric fields evaluated by the harness on the face as handed
+    over, which only narrow known findings (they never decide a verdict)."""
     s = dict(sig)
     g = GROUP[clause]
     s["bound"] = g
     s["bound_only_at_bulge_starters"] = bool(
         (g == "lat_min" and sig["min_only_at_bulge_starters"]) or (g == "lat_max" and sig["max_only_at_bulge_starters"])
     )
+    s["bound_only_at_edge_interior"] = bool(
+        (g == "lat_min" and sig["min_only_at_edge_interior"]) or (g == "lat_max" and sig["max_only_at_edge_interior"])
+    )
+    f = real_face(item)
+    n = len(f)
+    # the interior extreme that attains the bound lies within isclose(rtol=1e-5, atol=1e-8) of an end point of its edge
+    within = False
+    if g in ("lat_min", "lat_max"):
+        sign = 1 if g == "lat_max" else -1
+        for ft in item["amax" if g == "lat_max" else "amin"]:
+            if ft[0] == "e":
+                ext = edge_extreme(f, ft[1], sign)
+                ends = (corner_lat(f[ft[1] - 1]), corner_lat(f[ft[1] % n]))
+                within = within or any(abs(e - ext) <= 1e-8 + 1e-5 * abs(ext) for e in ends)
+    s["bulge_within_rtol"] = within
+    # some edge's plane passes within 1e-8 (unnormalised, unit end points) of the polar axis
+    def nz(a, b):
+        la = math.sqrt(a[0] * a[0] + a[1] * a[1] + a[2] * a[2])
+        lb = math.sqrt(b[0] * b[0] + b[1] * b[1] + b[2] * b[2])
+        return abs(a[0] * b[1] - a[1] * b[0]) / (la * lb)
+
+    s["edge_plane_within_tol_of_axis"] = any(nz(f[i], f[(i + 1) % n]) <= 1e-8 for i in range(n))
     if clause == "Value":
         s["error"] = rec["error"].split(":")[0]
     return s
@@ -788,7 +817,8 @@ def run(ctx):
         failed, sig = verdicts[rid]
         it, r = by_id[rid], rec_by_id[rid]
         replay = {
-            "face_ccw": it["f"],
+            "face_ccw": real_face(it),
+            "judged_as": it["f"],
             "handed_over_clockwise": it["cw"],
             "pole_corner_lon": it["plon"],
             "reported": r.get("box", r.get("error")),
@@ -796,7 +826,7 @@ def run(ctx):
         }
         for clause in failed:
             n_fail[clause] = n_fail.get(clause, 0) + 1
-            ctx.violation(rid, clause, detail={"failed": failed, "encl": r.get("encl")}, sig=violation_sig(clause, sig, r), replay=replay)
+            ctx.violation(rid, clause, detail={"failed": failed, "encl": r.get("encl")}, sig=violation_sig(clause, sig, r, it), replay=replay)
     ctx.note("failed_clause_counts", n_fail)
     # 5. faces of the repository's sample grids: float oracle only (no exact oracle for arbitrary float corners)
     gsum = {}
@@ -809,7 +839,7 @@ def run(ctx):
         ctx.traces += g["judged"]
         ctx.count(g["judged"])
         for fl in g["failures"]:
-            ctx.violation("grid:%s:face%d" % (g["name"], fl["face"]), fl["clause"], detail=fl, sig={"source": "sample_grid", "grid": g["name"], "oracle": "float"}, replay=fl)
+            ctx.violation("grid:%s:face%d" % (g["name"], fl["face"]), fl["clause"], detail=fl, sig={"source": "sample_grid", "grid": g["name"], "oracle": "float", "corner_lon_rounds_to_2pi": fl.get("corner_lon_rounds_to_2pi", False)}, replay=fl)
     ctx.note("sample_grids_float_oracle", gsum)
     ctx.note("faces_with_a_failed_clause", len(verdicts))
     for it in items[:1] + items[len(items) // 2 : len(items) // 2 + 1] + items[-1:]:
@@ -826,7 +856,7 @@ def run(ctx):
     )
     ctx.assumptions += [
         "TLC's evaluator, the CommunityModules Json reader",
-        "float evaluation of exact descriptors (atan2 / sqrt) and the property's 1e-9 tolerance are applied by the harness",
+        "float evaluation of exact descriptors (atan2 / sqrt) and the tolerance (latitudes 1e-8 = the library's documented ERROR_TOLERANCE, longitudes 1e-9) are applied by the harness",
         "enclosure is sampled at %d exact-parameter points per edge; the tightness clauses against the exact extremes make it complete for lattice faces" % (m_samples + 1),
         "lattice faces (|c| <= 3) are 10..170 degrees wide; small faces (down to ~1e-5 rad, generic positions, across both meridians, next to / around / at a pole) "
         "are images of TLC-judged faces under integer maps whose feature-inheritance laws TLC proves for small scale factors (BoundsScale.tla) and that hold for all by the stated polynomial argument",
@@ -841,6 +871,9 @@ def replay(path):
         data = json.load(fh)
     for v in data["cases"][:25]:
         rp = v["replay"]
+        if "face_ccw" not in rp:  # a face of a sample grid file: recorded detail only
+            print("%s clause=%s %s" % (v["key"], v["clause"], json.dumps(rp)[:600]))
+            continue
         it = {"id": v["key"], "f": rp["face_ccw"], "cw": rp["handed_over_clockwise"], "plon": rp["pole_corner_lon"], "lon": rp["expected"]["lon"]}
         out = {}
         bounds_of([it], out)
